@@ -47,4 +47,17 @@ CHECKS = {
         "note": "Trusted: rustc MIR for the analysed build configuration; prettyplease/syn assumed deterministic; the "
                 "documented side-effect table of Settings setters (rules/tables/settings_setters.json).",
     },
+    "C05": {
+        "engine": "mirfacts",
+        "level": "other",
+        "ref": "DESIGN.md §5 C05",
+        "technique": "finite decision tables extracted from MIR by path enumeration with syntactic path conditions, "
+                     "compared exhaustively with the documented table",
+        "text": "The complete shift/reduce (1728 rows) and reduce/reduce decision tables of the conflict resolution are "
+                "read off the MIR of calculate_reductions and compared row by row with the documented rules; plus the "
+                "priority operand, max_prior_for_term = max and the keyword -> meta key -> field mapping. Exhaustive over "
+                "the finite domain of the decision function, for all grammars; does not decide consequences for trees.",
+        "note": "Trusted: rustc MIR; the spec table written from docs/src/grammar_language.md and the property statement; "
+                "the resolution lives in LRTable::calculate_reductions (anchor, fail closed if it moves).",
+    },
 }
